@@ -209,6 +209,9 @@ func Coordinate(c *Ctx, ck *Check) int {
 	timeout := ck.CaseTimeout
 	if timeout == 0 {
 		timeout = 180 * time.Second
+		if c.Thorough() {
+			timeout = 40 * time.Minute // safety net only; thorough cases (delay 3 + S-dpor on one program) can take minutes
+		}
 	}
 	var wg sync.WaitGroup
 	for sh := 0; sh < nw; sh++ {
